@@ -109,6 +109,73 @@ class Summary:
                              for k, v in self.sinks.items())))
 
 
+def strips_userinfo(pattern):
+    """Does re.sub(pattern, <const>, url) remove the whole `user:password@`
+    of any URL?  The pattern is [anchor on ://] X+ (: X+)* @ where each X is
+    a character class wide enough for anything a user name or a quoted
+    password can hold (every printable character but / and @, and : when a
+    literal : separates two parts)."""
+    import re._parser as sp
+    try:
+        items = list(sp.parse(pattern))
+    except Exception:
+        return False
+    # prefix: look-behind on ://, or the literal scheme separator
+    k = 0
+    while k < len(items) and (items[k][0] in (sp.AT, sp.ASSERT) or (
+            items[k][0] is sp.LITERAL and chr(items[k][1]) in ':/')):
+        k += 1
+    body = items[k:]
+    if len(body) < 2 or body[-1] != (sp.LITERAL, ord('@')):
+        return False
+    parts = body[:-1]
+    has_colon = any(it == (sp.LITERAL, ord(':')) for it in parts)
+    need = {chr(c) for c in range(33, 127)} - {'/', '@'}
+    if has_colon:
+        need -= {':'}
+    reps = 0
+    for it in parts:
+        if it == (sp.LITERAL, ord(':')):
+            continue
+        if it[0] not in (sp.MAX_REPEAT, sp.MIN_REPEAT):
+            return False
+        lo, hi, sub = it[1]
+        if hi != sp.MAXREPEAT or len(sub) != 1:
+            return False
+        op, av = sub[0]
+        if op is sp.ANY:
+            chars = {chr(c) for c in range(128)}
+        elif op is sp.IN:
+            inside, neg = set(), False
+            for o2, a2 in av:
+                if o2 is sp.NEGATE:
+                    neg = True
+                elif o2 is sp.LITERAL:
+                    inside.add(chr(a2)) if a2 < 128 else None
+                elif o2 is sp.RANGE:
+                    inside |= {chr(c) for c in range(a2[0],
+                                                     min(a2[1], 127) + 1)}
+                elif o2 is sp.CATEGORY:
+                    import re as _re
+                    nm = str(a2).rpartition('_')[2].lower()
+                    rx = {'digit': r'\d', 'space': r'\s',
+                          'word': r'\w'}.get(nm)
+                    if rx is None:
+                        return False
+                    hit = {chr(c) for c in range(128)
+                           if _re.fullmatch(rx, chr(c), _re.ASCII)}
+                    inside |= ({chr(c) for c in range(128)} - hit) \
+                        if 'NOT' in str(a2) else hit
+            chars = ({chr(c) for c in range(128)} - inside) if neg \
+                else inside
+        else:
+            return False
+        if not need <= chars:
+            return False
+        reps += 1
+    return reps >= 1
+
+
 class TaintEngine:
     def __init__(self, an):
         self.an = an
@@ -537,6 +604,13 @@ class TaintEngine:
         if isinstance(fn, ast.Attribute) and fn.attr == 'replace' and \
                 len(call.args) == 2 and constant(call.args[1]) and \
                 self.labels(f, call.args[0], state):
+            return frozenset()
+        if d == 're.sub' and len(call.args) >= 3 and \
+                isinstance(call.args[0], ast.Constant) and \
+                isinstance(call.args[0].value, str) and \
+                isinstance(call.args[1], ast.Constant) and \
+                strips_userinfo(call.args[0].value):
+            # the user:password@ part of a URL is cut out, whatever it holds
             return frozenset()
         cal = self.prog.callee(f, call)
         if cal[0] == 'func' and cal[1] in SOURCE_FUNCS:
